@@ -575,7 +575,12 @@ def _scenario_polarity(model, rb, helper, node, kind='str'):
                 start = d0.effects(st0, start)
         start.quoted = False
     else:
+        # the helper renders one var block: its parameters hold the value
+        # as it was looked up
         body, start = rb.node.body, _FS(invar=True)
+        if kind == 'object':
+            for p_ in rb.params():
+                start.env['@obj:' + p_] = True
     res = {}
     for p in (True, False):
         dom = _FastDomain(model, fi, p, helper)
